@@ -16,11 +16,18 @@ def load_contracts(modnames):
     return contracts, models
 
 
+def all_modules():
+    import os
+    d = os.path.join(core.VERIF, 'contracts')
+    return ['contracts.' + f[:-3] for f in sorted(os.listdir(d)) if f.endswith('.py') and f != '__init__.py']
+
+
 def verify_functions(modnames, only=None, verbose=True):
-    contracts, models = load_contracts(modnames)
+    contracts, models = load_contracts(all_modules())
+    mine, _ = load_contracts(modnames)
     repo = engine.Repo(core.REPO)
     results = []
-    for (rel, qual), c in contracts.items():
+    for (rel, qual), c in mine.items():
         if c.get('inline_always') or c.get('trusted') or c.get('assumed'):
             continue
         if only and only not in qual:
@@ -41,8 +48,8 @@ def verify_functions(modnames, only=None, verbose=True):
             print('== {}:{}  {}  paths={} obligations={} gen={:.2f}s solve={:.2f}s exits={}'.format(
                 rel, qual, status, eng.paths, len(obs), tgen, tsolve, eng.exits))
             for ob in obs:
-                if ob.verdict != 'proved' or verbose > 1:
-                    print('   L{:<5} {:11s} {:9s} {}'.format(ob.line, ob.kind, ob.verdict, ob.name[:110]))
+                if ob.verdict != 'proved' or verbose > 1 or ob.time > 5:
+                    print('   L{:<5} {:11s} {:9s} {:5.1f}s {} {}'.format(ob.line, ob.kind, ob.verdict, ob.time, ob.backend, ob.name[:110]))
                     if ob.verdict == 'refuted' and ob.model:
                         print('          model:', {k: v for k, v in ob.model.items() if 'val!' not in v})
     return results
